@@ -537,6 +537,61 @@ Proof.
   rewrite map_map. apply map_ext. intros o; apply settle_op_idem.
 Qed.
 
+(* inside the envelope nothing is unreadable: settling an in-scope input changes nothing, so the
+   verdicts computed on the settled history are, for every in-scope case, the verdicts of the case itself *)
+Lemma in_values_of_key : forall key v items,
+  In (key, Some v) items -> v <> [] -> In v (values_of_key key items).
+Proof.
+  intros key v items; unfold values_of_key.
+  induction items as [|e items IH]; cbn [map concat]; intros Hin Hv; [destruct Hin|].
+  apply in_or_app. destruct Hin as [He|Hin].
+  - left. subst e. cbn [fst snd]. replace (ci_eqb key key) with true by (unfold ci_eqb; symmetry; apply beqb_refl). destruct v as [|c r]; [congruence|left; reflexivity].
+  - right. apply IH; assumption.
+Qed.
+
+Lemma event_item_ok_readable : forall opts items it,
+  In it items -> event_item_ok opts items it = true -> unparsable_item opts it = false.
+Proof.
+  intros opts items [key ov] Hin Hok. unfold event_item_ok in Hok. unfold unparsable_item. cbn [fst snd] in *.
+  destruct (dfind_ci key opts) as [[cn k]|]; [|reflexivity].
+  destruct ov as [v|]; [|reflexivity].
+  destruct v as [|c r]; [destruct k; reflexivity|].
+  apply andb_true_iff in Hok. destruct Hok as [_ Hvals].
+  pose proof (in_values_of_key key (c :: r) items Hin ltac:(discriminate)) as Hv.
+  destruct (values_of_key key items) as [|v1 vs] eqn:Evals; [destruct Hv|].
+  cbn [is_nil orb] in Hvals.
+  destruct k; try reflexivity.
+  all: unfold tor_values_ok in Hvals; destruct vs as [|v2 vs]; [|discriminate Hvals].
+  all: destruct Hv as [Hv|[]]; subst v1; apply andb_true_iff in Hvals; destruct Hvals as [Hp _].
+  all: cbn [is_nil negb andb]; destruct (parse_scalar _ (c :: r)); [reflexivity|discriminate Hp].
+Qed.
+
+Lemma filter_all : forall {A} (f : A -> bool) l, (forall x, In x l -> f x = true) -> filter f l = l.
+Proof.
+  intros A f l; induction l as [|a l IH]; cbn [filter]; intros H; [reflexivity|].
+  rewrite (H a (or_introl eq_refl)). f_equal. apply IH. intros x Hx; apply H; right; exact Hx.
+Qed.
+
+Lemma op_ok_settled : forall opts o, op_ok opts o = true -> settle_op opts o = o.
+Proof.
+  intros opts o Hok; destruct o; cbn [settle_op]; try reflexivity.
+  unfold op_ok, op_ok_gen in Hok. apply andb_true_iff in Hok. destruct Hok as [_ Hall].
+  f_equal. apply filter_all. intros it Hin.
+  rewrite forallb_forall in Hall. rewrite (event_item_ok_readable opts items it Hin (Hall it Hin)). reflexivity.
+Qed.
+
+Lemma in_scope_settled : forall i, in_scope i = true -> settle i = i.
+Proof.
+  intros [t s d p ops] Hs. unfold settle; cbn [i_table i_store i_defaults i_pre i_ops]. f_equal.
+  unfold in_scope in Hs; cbn [i_table i_store i_defaults i_pre i_ops] in Hs.
+  apply andb_true_iff in Hs. destruct Hs as [_ Hops]. rewrite forallb_forall in Hops.
+  rewrite <- (map_id ops) at 2. apply map_ext_in. intros o Ho. apply op_ok_settled. apply Hops; exact Ho.
+Qed.
+
+
+Lemma c11_scope_settled : forall i, c11_scope i = true -> settle i = i.
+Proof. intros i H. apply in_scope_settled. unfold c11_scope in H. apply andb_true_iff in H. exact (proj1 H). Qed.
+
 (* the second way to reach the attached state: TorConfig(), assignments (not validated, never sent),
    attach_protocol().  Afterwards the view is Tor's configuration, exactly as with TorConfig(protocol) *)
 Definition w11_attach :=
